@@ -160,6 +160,34 @@ def run(ctx):
                            "theorem": "ZwVerif.C11.profile_invariant / dispatch_by_top_types"})
         else:
             hist_ok += 1
+    # ?match / =~ on anchored patterns (where "the whole string has to match" and a search agree): the answer of a regular-
+    # expression engine that is not the one under test (Python's, on the subset where POSIX ERE and it coincide)
+    match_ok = 0
+    if not ctx.replay:
+        import re as _re
+        atoms = ["a", "b", "ab", ".", "a*", "b+", "(a|b)", "[abc]", "[^a]", "a?", "(ab)*", "x", "ba"]
+        subjects = ["", "a", "b", "ab", "aab", "abab", "ba", "abc", "xa", "aaa", "bb", "c"]
+        mlines, mmeta = [], []
+        for _ in range(150 if ctx.tier == "quick" else 3000):
+            pat = "^" + "".join(rng.choice(atoms) for _ in range(rng.randint(1, 3))) + "$"
+            subj = rng.choice(subjects)
+            want = _re.fullmatch(pat[1:-1], subj) is not None
+            for prog, w in (('"%s" "%s" ?match' % (subj, pat), want), ('"%s" "%s" !match' % (subj, pat), not want),
+                            ('"%s" (=~ "%s")' % (subj, pat), want), ('"%s" (!~ "%s")' % (subj, pat), not want)):
+                mlines.append("Q - " + zwcorr.hx(prog))
+                mmeta.append((prog, w))
+        mrecs_, _ = h.run_impl_robust(mlines)
+        for (prog, w), r in zip(mmeta, mrecs_):
+            if r.err in ("crash", "skipped"):
+                continue
+            got = len(r.res) > 0
+            if r.err or r.soft or got != w:
+                ctx.violation("`%s` %s; the string %s the pattern" % (prog, "holds" if got else "does not hold (%s)" % (r.err or r.soft or "no result"),
+                                                                  "does not match" if (w != ("!" not in prog.split('"')[-1] and "!~" not in prog)) else "matches"),
+                              {"stream": "C11-match", "input": prog, "got": r.raw[:3], "expected": "holds" if w else "does not hold"})
+            else:
+                match_ok += 1
+    ctx.cov["match_checks_ok"] = match_ok
     ctx.cov["evaluations"] = stats["programs"] + len(lines)
     ctx.cov["distinct_nontrivial"] = stats["distinct_nontrivial"]
     ctx.cov["history_pairs_ok"] = hist_ok
